@@ -58,7 +58,62 @@ def outline_points(tt, name):
     return pts
 
 
+def sparse_flatten_section(ctx):
+    """a sparse intermediate layer listed BETWEEN the full masters + nested composites + flattenComponents: at every full
+    master's location the variable font must render each glyph like that master compiled on its own (an oracle that shares
+    no interpolatable code with the variable build)"""
+    import ufo2ft
+    from fontTools.ttLib import TTFont
+    from fontTools.varLib import instancer
+    from fontTools.designspaceLib import SourceDescriptor
+    from harness.props.c13 import flat_contours, same_rendering
+    rng = ctx.subrng("sparse-flatten")
+    for i in range(ctx.budget(6, 30)):
+        lib = ["ufoLib2", "defcon"][i % 2]
+        base = dsgen.base_master(rng, kinds=("line",), max_depth=2, anchors=False, classes=["identity", "scale", "mirror_x"])
+        masters = [base, dsgen.perturb(rng, base, 1)]
+        simple = [g["name"] for g in base["glyphs"] if not g["components"] and g["contours"]]
+        if not simple or not any(g["components"] for g in base["glyphs"]):
+            continue
+        flatten = i % 3 != 2
+        ds, fonts = dsgen.make_designspace(rng, masters, lib, instances=False)
+        layer = fonts[0].newLayer("mid")
+        nm = rng.choice(simple)
+        gl = layer.newGlyph(nm)
+        gl.width = fonts[0][nm].width
+        pen = gl.getPointPen()
+        for c in next(g for g in base["glyphs"] if g["name"] == nm)["contours"]:
+            pen.beginPath()
+            for k, (x, y, t) in enumerate(c):
+                pen.addPoint((int(x) + 25 + 3 * k, int(y) - 15), segmentType=t)
+            pen.endPath()
+        sd = SourceDescriptor()
+        sd.font, sd.layerName, sd.location, sd.name = fonts[0], "mid", {"Weight": 500}, "master.mid"
+        sd.familyName, sd.styleName = "Fam", "Mid"
+        ds.sources.insert(1, sd)                  # Regular, Medium (sparse), Bold
+        case = {"function": "compileVariableTTF", "flattenComponents": flatten, "lib": lib, "font": jsonable(base),
+                "last_master": jsonable(masters[1]), "sparse_layer": {"at": 500, "glyph": nm, "position_in_sources": 1}}
+        ctx.count(); ctx.klass("sparse layer between masters/flatten=%s" % flatten); ctx.nontriv(("sf", i, ctx.scale))
+        try:
+            vf = ufo2ft.compileVariableTTF(ds, flattenComponents=flatten)
+            b = io.BytesIO(); vf.save(b)
+            statics = [ufo2ft.compileTTF(build_font(m, lib), flattenComponents=flatten) for m in masters]
+        except Exception as e:
+            ctx.spec_failure(case, "compile raised %s: %s\n%s" % (type(e).__name__, e, traceback.format_exc()[-1000:]))
+            continue
+        for k, loc in ((0, 100), (1, 900)):
+            inst = instancer.instantiateVariableFont(TTFont(io.BytesIO(b.getvalue())), {"wght": loc})
+            for n in inst.getGlyphOrder():
+                if n not in statics[k].getGlyphOrder():
+                    continue
+                if not same_rendering(flat_contours(inst, n), flat_contours(statics[k], n), tol=2):
+                    ctx.spec_failure(dict(case, master=k, glyph=n), "at master %d's location glyph %r does not render like that master "
+                                     "compiled on its own" % (k, n))
+                    break
+
+
 def explore(ctx):
+    sparse_flatten_section(ctx)
     import ufo2ft
     from fontTools.varLib import instancer
     from fontTools.ttLib import TTFont
